@@ -55,7 +55,9 @@ class HashSigner:
         sign, digestmod = self._get_sign_and_digestmod(sign)
         expected_sign = self._gen_sign(key, value, digestmod)
         if expected_sign != sign:
-            raise UnSecureDataError(f"{expected_sign!r} != {sign!r}")
+            # never put the EXPECTED signature into the message: whoever can plant a blob and read error texts / logs would
+            # obtain a valid signature for a key and payload of their choice
+            raise UnSecureDataError(f"signature mismatch for key: {key}")
         return value
 
     def _gen_sign(self, key: Key, value: bytes, digestmod: bytes) -> bytes:
